@@ -52,9 +52,24 @@ def rand_name(rng):
             return n
 
 
+def plain_name(rng):
+    """path of 1-3 plain segments (letters, digits, _ - .): such entries are also read back through the virtual file system"""
+    segs = []
+    for _ in range(rng.choice([1, 1, 2, 3])):
+        while True:
+            sg = bytes(rng.choice(b"abcABCxyz019_-.") for _ in range(rng.randint(1, 6)))
+            if sg not in (b".", b".."):
+                break
+        segs.append(sg)
+    return b"\\".join(segs)
+
+
 def rand_archive(rng, big=False):
     props = []
-    if rng.random() < 0.8:
+    plain = rng.random() < 0.5
+    if plain:
+        props.append((b"prefix", plain_name(rng)))
+    elif rng.random() < 0.8:
         props.append((b"prefix", rand_name(rng).replace(b"/", b"\\")))
     seen = {b"prefix"}
     for _ in range(rng.choice([0, 0, 1, 2, 5])):
@@ -66,7 +81,7 @@ def rand_archive(rng, big=False):
     rng.shuffle(props)
     entries = []
     for _ in range(rng.choice([0, 1, 2, 3, 6])):
-        n = rand_name(rng)
+        n = plain_name(rng) if plain and rng.random() < 0.8 else rand_name(rng)
         ln = rng.choice([0, 0, 1, 2, 5, 17, 255, 256, 257, 300] + ([5000, 70000] if big else []))
         d = bytes(rng.randint(0, 255) for _ in range(ln))
         entries.append((n, d, rng.choice([0, 1, 0x7fffffff, 0xffffffff])))
@@ -198,9 +213,16 @@ def main(replay=None):
     mit = iter(model)
     kinds, distinct, samples = {}, set(), []
     ndis = 0
+    n_vfs = 0
+    vfs_kinds = {}
     for (kind, fb, nm, exp), il in zip(cases, impl):
         kinds[kind.split(":")[0]] = kinds.get(kind.split(":")[0], 0) + 1
         f = il.split("\t")
+        vfs = None
+        if len(f) >= 2 and f[-2].startswith("VFS:"):
+            vfs = f[-2][4:]
+            del f[-2]
+            il = "\t".join(f)
         body = "\t".join(f[:-1])
         if fb is None:
             # absent archive: loading must fail and must not create the file
@@ -238,6 +260,35 @@ def main(replay=None):
         if why:
             run.violation(why, rep)
             continue
+        # 2b. the route scripts take: a plainly named entry read through the virtual file system (under the prefix) has the
+        #     bytes the archive reader itself hands out for it (first entry of that name; paths are not case sensitive there)
+        if vfs not in (None, "-") and f[0] == "OK" and len(f) == 7:
+            n_vfs += 1
+            vfs_kinds[kind.split(':')[0]] = vfs_kinds.get(kind.split(':')[0], 0) + 1
+            listed = [x.split(":")[0] for x in f[2].split(";")] if f[2] else []
+            reads = f[5].split(";") if f[5] else []
+            direct = {}
+            for n, rd in zip(listed, reads):
+                direct.setdefault(n, rd)
+            lows = [V.unhx(n).lower() for n in listed]
+            bad = None
+            for item in [x for x in vfs.split(";") if x]:
+                n, got = item.split("=")
+                if lows.count(V.unhx(n).lower()) != 1:
+                    continue
+                want = direct.get(n, "NONE")
+                if got == "MISSING":
+                    if kind == "wellformed":
+                        bad = "entry %s of a well-formed archive is not found under the archive's prefix" % n
+                elif want.startswith("S") and got != want[1:]:
+                    bad = ("entry %s read through the virtual file system has %d bytes, the archive holds %d for it (or other bytes)"
+                           % (n, len(got) // 2, len(want[1:]) // 2))
+                if bad:
+                    break
+            if bad:
+                rep["vfs"] = vfs[:2000]
+                run.violation(bad, rep)
+                continue
         # 3. correspondence model <-> implementation
         if body != ml:
             ndis += 1
@@ -254,6 +305,8 @@ def main(replay=None):
     run.cov["input_distribution"] = kinds
     run.cov["samples"] = samples
     run.cov["disagreements_checked"] = ndis
+    run.cov["archives_read_back_through_the_vfs"] = n_vfs
+    run.cov["read_back_through_the_vfs_by_kind"] = vfs_kinds
     run.cov["trusted_base"] = ["Coq 8.16.1 kernel (vm_compute used in Examples only)", "ExtrOcamlBasic extraction + ocaml/pbo_driver.ml",
                                "harness/h_pbo.cpp + fork/rlimit plumbing", "Python packer/generator in checks/C17.py",
                                "model PBO/PboDefs.v is hand-written; tied to pbofile.hpp only by this differential run"]
